@@ -11,6 +11,8 @@ pub struct Found {
     pub violation: Violation,
     pub log_hash: u64,
     pub executions: u32,
+    /// reported exactly as found (see `minimise`)
+    pub unminimised: bool,
 }
 
 /// Executes the candidate under `Strategy::Script`; returns the re-recorded trace if the
@@ -38,10 +40,27 @@ thread_local! {
     static DEADLINE: std::cell::Cell<Option<std::time::Instant>> = const { std::cell::Cell::new(None) };
 }
 
-pub fn minimise(plan: &Plan, trace: &[Action], target: &Violation, refs: &mut References) -> Result<Found, String> {
+/// `given`: the script the finding run was given (None: all decisions came from the plan's PRNG).
+pub fn minimise(plan: &Plan, trace: &[Action], target: &Violation, refs: &mut References, given: Option<&[Action]>) -> Result<Found, String> {
     DEADLINE.with(|d| d.set(None));
-    let r = minimise_inner(plan, trace, target, refs);
+    let mut r = minimise_inner(plan, trace, target, refs);
     DEADLINE.with(|d| d.set(None));
+    if r.is_err() {
+        // Re-expressing the run as (plan, recorded decisions) did not reproduce it. If executing the
+        // very same request again does, the violation depends on something that any change of the
+        // request perturbs (memory layout: code that keys on addresses); it is then reported
+        // unminimised, as found - that replays exactly, the address space being the same in every
+        // process (no randomisation, one memory image behind every fork).
+        let again = oracle::run_forked(plan, given, refs);
+        let vs = oracle::violations_of(plan, refs, &again);
+        if let Some(v) = vs.into_iter().find(|v| v.same_as(target)) {
+            let again2 = oracle::run_forked(plan, given, refs);
+            if oracle::violations_of(plan, refs, &again2).iter().any(|x| x.same_as(target) && x.fingerprint == v.fingerprint) {
+                let log_hash = again.as_ref().map(|s| s.log_hash).unwrap_or(0);
+                r = Ok(Found { plan: plan.clone(), script: given.map(|g| g.to_vec()).unwrap_or_default(), violation: v, log_hash, executions: 3, unminimised: true });
+            }
+        }
+    }
     r
 }
 
@@ -196,6 +215,16 @@ fn minimise_inner(plan: &Plan, trace: &[Action], target: &Violation, refs: &mut 
             c.store = StoreMode::PerTask;
             attempt!(c, script.clone());
         }
+        if plan.opts_per_task {
+            let mut c = plan.clone();
+            c.opts_per_task = false;
+            attempt!(c, script.clone());
+        }
+        if !plan.stack_kib.is_empty() {
+            let mut c = plan.clone();
+            c.stack_kib = vec![];
+            attempt!(c, script.clone());
+        }
         // 7. schedule: shortest script prefix (the canonical default continues it)
         if plan.strategy == Strategy::Script && !script.is_empty() {
             let (mut lo, mut hi) = (0usize, script.len());
@@ -242,5 +271,5 @@ fn minimise_inner(plan: &Plan, trace: &[Action], target: &Violation, refs: &mut 
     if !target.is_death() && (h2 != log_hash || t2 != script || v2.fingerprint != viol.fingerprint) {
         return Err("minimised run is not deterministic under replay".into());
     }
-    Ok(Found { plan, script, violation: viol, log_hash, executions: n })
+    Ok(Found { plan, script, violation: viol, log_hash, executions: n, unminimised: false })
 }
